@@ -63,6 +63,9 @@ Pre(e) == CASE e.op = "lincomb"   -> SameShape(A(e), B(e))
             [] e.op = "remove_leg" -> PreRemoveLeg(A(e), G(e.pos))
             [] e.op = "fuse"      -> PreFuse(A(e), PartsOf(e)) /\ ~A(e).dg
             [] e.op = "unfuse"    -> PreUnfuse(A(e), SetOf(e.axes)) /\ ~A(e).dg
+            [] e.op = "diag"      -> PreDiag(A(e))
+            [] e.op = "broadcast" -> PreBroadcast(A(e), B(e), G(e.axis))
+            [] e.op = "apply_mask" -> PreBroadcast(A(e), B(e), G(e.axis))
             [] e.op = "swap_gate" -> \A j \in 1..Len(e.pairs) : RangeOf(G1(e.pairs[j][1])) \cup RangeOf(G1(e.pairs[j][2])) \subseteq 1..LRank(A(e))
 Ref(e) == CASE e.op = "lincomb"   -> LinComb(A(e), Amp(e, 1), B(e), Amp(e, 2))
             [] e.op = "scale"     -> Scale(A(e), Amp(e, 1))
@@ -79,16 +82,22 @@ Ref(e) == CASE e.op = "lincomb"   -> LinComb(A(e), Amp(e, 1), B(e), Amp(e, 2))
             [] e.op = "remove_leg" -> RemoveLeg(A(e), G(e.pos))
             [] e.op = "fuse"      -> Fuse(A(e), PartsOf(e), EffMode(ModeCode(e.mode), KnobC))
             [] e.op = "unfuse"    -> Unfuse(A(e), SetOf(e.axes))
+            [] e.op = "diag"      -> Diag(A(e))
+            [] e.op = "broadcast" -> Broadcast(A(e), B(e), G(e.axis))
+            [] e.op = "apply_mask" -> ApplyMask(A(e), B(e), G(e.axis))
             [] e.op = "swap_gate" -> SwapGate(A(e), SwapPairs(A(e), e), Tr.ferm)
 
 (* inputs on which the outcome is unspecified (6.4 of DESIGN.md): a charge sector with two different dimensions in the operands *)
 Unspec(e) == CASE e.op = "lincomb" -> SameShape(A(e), B(e)) /\ ~DimsOKSame(A(e), B(e))
                [] e.op = "add3" -> SameShape(A(e), B(e)) /\ SameShape(A(e), reg[e.c]) /\ ~(DimsOKSame(A(e), B(e)) /\ DimsOKSame(A(e), reg[e.c]) /\ DimsOKSame(B(e), reg[e.c]))
+               [] e.op = "vdot" /\ A(e).dg # B(e).dg -> TRUE        \* mixing a diagonal with a non-diagonal operand in vdot: unsupported input, unspecified
                [] e.op \in {"tensordot", "vdot"} -> ~DimsOKDot(A(e), B(e), IF e.op = "vdot" THEN [k \in 1..LRank(A(e)) |-> k] ELSE G1(e.la),
                                                                          IF e.op = "vdot" THEN [k \in 1..LRank(B(e)) |-> k] ELSE G1(e.lb))
                                                     /\ Len(IF e.op = "vdot" THEN <<>> ELSE G1(e.la)) = Len(IF e.op = "vdot" THEN <<>> ELSE G1(e.lb))
                                                     /\ (e.op = "vdot" => LRank(A(e)) = LRank(B(e)))
                                                     /\ (e.op = "tensordot" => (RangeOf(G1(e.la)) \subseteq 1..LRank(A(e)) /\ RangeOf(G1(e.lb)) \subseteq 1..LRank(B(e))))
+               [] e.op = "diag" -> PreDiag(A(e)) /\ ~A(e).dg /\ ~DimsAgree(A(e).legs[1], A(e).legs[2])
+               [] e.op \in {"broadcast", "apply_mask"} -> PreBroadcast(A(e), B(e), G(e.axis)) /\ ~DimsAgree(A(e).legs[1], B(e).legs[NatOf(B(e), G(e.axis))[1]])
                [] e.op = "trace" -> Len(e.l0) = Len(e.l1) /\ RangeOf(G1(e.l0)) \cup RangeOf(G1(e.l1)) \subseteq 1..LRank(A(e)) /\ ~DimsOKTrace(A(e), G1(e.l0), G1(e.l1))
                [] OTHER -> FALSE
 (* numbers *)
